@@ -78,6 +78,8 @@ def native_sweep(uni, sidecar_modules, keys, limit=100000):
                 failures.append({"name": "%s/%s" % (key, v.clause), "detail": v.detail[:300],
                                  "witness": {"function": key, "input": desc[:1000], "clause": v.clause}})
                 break
+            except native.ContractEvalError:
+                per["contract-evaluation-errors"] = per.get("contract-evaluation-errors", 0) + 1
         per[key] = c
     return nat.evaluations, failures, per
 
